@@ -89,7 +89,7 @@ def _gen(ctx, num):
     st = lambda *a: [({"a": x} if isinstance(x, str) else x) for x in a]
     res = lambda k: {"a": "result", "k": k}
     hand = [
-        # F22 witness; a second relay stays in flight so that validateReturnCondition cannot end the relay first
+        # F34 witness; a second relay stays in flight so that validateReturnCondition cannot end the relay first
         {"cfg": dict(CFG, sel="stateless"), "steps": st("take", "send_ok", "tick", "take", "send_ok", "tick", "take", res("nr"), "settle",
                                                         {"a": "send_err", "e": "err"}, "take", "send_ok", "take")},
         {"cfg": dict(CFG, sel="stateful"), "steps": st("take", "send_ok", res("ne"), "take", "send_ok", "take")},
@@ -209,7 +209,7 @@ def run(ctx):
     ctx.notes.append("design-level strict NoRetryAfterNR on RelaySM (code as it is): %s" % (nr["violated"] or "holds"))
     if not ctx.quick:
         fx = vlib.tlc_mc(ctx, "RelaySM", "RelaySM_fix.cfg", timeout=1800)
-        ctx.notes.append("design-level strict NoRetryAfterNR on RelaySM with fixes/F22 modelled (FixF22=TRUE): %s, %d states" % (
+        ctx.notes.append("design-level strict NoRetryAfterNR on RelaySM with fixes/F34 modelled (FixF34=TRUE): %s, %d states" % (
             fx["violated"] or "holds", fx["distinct"]))
 
     # ---- exhaustive equivalence of the decision functions
